@@ -303,7 +303,8 @@ Proof.
   { destruct lz; [apply good_lbreak|apply good_none]; exact H. }
   pose proof (Hfr n c H) as F. destruct (fr n c) as [c1 e1]. destruct F as [F1 F2]. cbn [fst snd] in F1, F2.
   destruct e1 as [e|]; [|apply IH; exact F2].
-  destruct e; try (split; [exact F1|exact F2]). apply IH. exact F2.
+  destruct e; try (split; [exact F1|exact F2]); [apply IH; exact F2|].
+  destruct lz; split; try exact F1; exact F2.
 Qed.
 
 (* what one pass over a loop body leaves *)
